@@ -39,7 +39,7 @@ class Obligation(object):
 
     def __init__(self, name, fn, bounds='', mode='exact', max_paths=200000, max_seconds=900.0,
                  solver_timeout_ms=60000, expect_symbolic=True, logic=None, nonfinite='cut',
-                 max_violations=6, purify_div=False, incremental_ms=15000):
+                 max_violations=6, purify_div=False, incremental_ms=15000, fresh_strategy='timeout-first'):
         self.name = name
         self.fn = fn
         self.bounds = bounds
@@ -53,6 +53,7 @@ class Obligation(object):
         self.max_violations = max_violations
         self.purify_div = purify_div
         self.incremental_ms = incremental_ms
+        self.fresh_strategy = fresh_strategy
 
 
 _OBLIGATIONS = None
@@ -71,6 +72,7 @@ def _run_one(i):
         ex.mode = ob.mode
         ex.purify_div = ob.purify_div
         ex.incremental_timeout_ms = ob.incremental_ms
+        ex.fresh_strategy = ob.fresh_strategy
         ex.twin = twin
         if twin:
             orig = ex.require
